@@ -117,6 +117,7 @@ pub fn strategy(verif: bool, tables: bool) -> BoxedStrategy<Req> {
         (2, (element(), element()).prop_map(|(x, y)| Req::new("rs.eq", vec![x.to_vec(), y.to_vec()])).boxed()),
         (1, element().prop_map(|x| Req::new("rs.eq", vec![x.to_vec(), x.to_vec()])).boxed()),
         (2, vec(element(), 0..=32).prop_map(|v| Req::new("rs.batch", vec![cat(&v)])).boxed()),
+        (2, byte_pairs(encoding()).prop_map(|(a, b)| Req::new("rs.compressed_eq", vec![a.to_vec(), b.to_vec()])).boxed()),
         (1, (0usize..120, vec(element(), 1..5), any::<bool>()).prop_map(|(n, base, same)| { let v: Vec<B32> = (0..n).map(|i| if same { base[0] } else { base[i % base.len()] }).collect(); Req::new("rs.sum_many", vec![cat(&v)]) }).boxed()),
         (1, (33usize..150, element(), element()).prop_map(|(n, p, q)| { let v: Vec<B32> = (0..n).map(|i| if i % 7 == 3 { q } else { p }).collect(); Req::new("rs.batch", vec![cat(&v)]) }).boxed()),
         // batches containing the identity (e f g h = 0)
